@@ -450,9 +450,9 @@ func coqCase(raw json.RawMessage, d *inputData, runs []loadObs) string {
 		for _, pr := range p.Probes {
 			probes = append(probes, core.Hex(pr))
 		}
-		pkgs = append(pkgs, fmt.Sprintf("mk_pkgin (mk_pinfo %s %s) %s %s %s %s %s %s",
+		pkgs = append(pkgs, fmt.Sprintf("mk_pkgin (mk_pinfo %s %s) %s %s %s %s %s %s %s",
 			core.Hex(p.Path), modTerm(p.Mod), core.CoqBool(p.Syntax), core.CoqList(defs), core.CoqList(scope), core.CoqList(qs),
-			core.Hex(p.Dir), core.CoqList(probes)))
+			core.Hex(p.Dir), core.CoqList(probes), core.CoqBool(p.PosTies)))
 	}
 	var rs []string
 	for _, r := range runs {
